@@ -640,6 +640,29 @@ pub fn fresh_name_rich(
     fresh_name(r, kind, subdir, false, used)
 }
 
+/// Like `fresh_name` with `fs_safe`, but one time in three a name built from
+/// the clauses of the classification rule or a row of the classification
+/// table (the names on which a second implementation of the rule is most
+/// likely to differ), as far as it can be the name of a file.
+pub fn fresh_name_fs(r: &mut Rng, kind: Kind, used: &mut Vec<Vec<u8>>) -> Vec<u8> {
+    if r.chance(1, 3) {
+        for _ in 0..24 {
+            let n = if r.chance(1, 2) { clause_name(r) } else { CLASS_TABLE[r.below(CLASS_TABLE.len())].0.to_vec() };
+            if n.len() <= 200
+                && !n.contains(&0)
+                && !n.contains(&b'/')
+                && classify(&n) == Some(kind)
+                && path_plain(&n)
+                && !used.iter().any(|u| *u == n)
+            {
+                used.push(n.clone());
+                return n;
+            }
+        }
+    }
+    fresh_name(r, kind, false, true, used)
+}
+
 /// Number of files of an occasional large document: above the sizes where
 /// small-input strategies (insertion sort below 21 elements, inline storage,
 /// linear scans) give way to the general ones.
@@ -1172,6 +1195,17 @@ pub fn ignore_line(
             (fields(r, &[a, &paren(name), b"=", h.as_bytes()]), LineClass::UnknownAlg)
         }
         6 | 7 => {
+            if r.chance(1, 3) {
+                // a Size line cut short after any of its fields: there is no
+                // size to parse (whatever an earlier line's fields were)
+                let l = match r.below(4) {
+                    0 => fields(r, &[b"Size", &paren(name), b"="]),
+                    1 => fields(r, &[b"Size", &paren(name)]),
+                    2 => fields(r, &[b"Size"]),
+                    _ => fields(r, &[b"Size", &paren(name), b"=", b"", b"bytes"]),
+                };
+                return (l, LineClass::BadSize);
+            }
             let v = r.pick(&BAD_SIZES);
             (fields(r, &[b"Size", &paren(name), b"=", v, b"bytes"]), LineClass::BadSize)
         }
